@@ -9,8 +9,12 @@ package main
 // argument of `http.Redirect` inside Static", "the argument of `w.WriteHeader` in the
 // `if err := recover(); err != nil` branch of Recovery"), never by line number. Selector
 // constants `http.StatusXxx` / `http.MethodXxx` are resolved to their values. A site that can
-// no longer be found that way is an error: the translator then fails and the check reports
-// the broken tie instead of silently keeping an old value.
+// no longer be found that way (the code around the literal was restructured) does not stop the run:
+// the constant is emitted with its DOCUMENTED text, marked `NOT REGENERATED` in its comment and listed
+// in report.json; the check records it in the evidence, and the correspondence — which exercises every
+// behavioural constant — is then the only tie for it. Structural facts (`structuralFacts`: no behaviour a
+// sequential session could show) have no such fallback: they are emitted as "unknown" and break the
+// obligation of the property they serve.
 //
 // Files: constfacts.go (this: fact list, AST helpers), constfacts_tables.go (constant
 // resolution), constfacts_web.go (render, static,
@@ -46,13 +50,29 @@ type cfacts struct {
 	files map[string]*ast.File
 	list  []cfact
 	errs  []string
+	// anchors that failed since the last fact was added: the next fact added depends on them
+	pending []string
+	// fact name → why it could not be read
+	bad map[string]string
 }
 
+// facts with no behavioural counterpart in the sequential correspondence: no fallback
+var structuralFacts = map[string]bool{"writerCommitGuard": true}
+
 func (c *cfacts) fail(format string, a ...interface{}) {
-	c.errs = append(c.errs, fmt.Sprintf(format, a...))
+	msg := fmt.Sprintf(format, a...)
+	c.errs = append(c.errs, msg)
+	c.pending = append(c.pending, msg)
 }
 
 func (c *cfacts) add(group, name, site string, val interface{}) {
+	if len(c.pending) > 0 {
+		if c.bad == nil {
+			c.bad = map[string]string{}
+		}
+		c.bad[name] = strings.Join(c.pending, "; ")
+		c.pending = nil
+	}
 	c.list = append(c.list, cfact{group, name, site, val})
 }
 
@@ -111,6 +131,55 @@ func (c *cfacts) funcIn(rel, recv, name string) *ast.FuncDecl {
 	}
 	c.fail("%s: func %s not found", rel, where)
 	return &ast.FuncDecl{Name: ast.NewIdent(name), Body: &ast.BlockStmt{}}
+}
+
+// methodClosure: the method `name` of `recv` and every method of the same receiver it calls as `w.<m>(…)` /
+// `<x>.<m>(…)` on its receiver variable, transitively, except those in `stop`
+func (c *cfacts) methodClosure(rel, recv, name string, stop map[string]bool) []*ast.FuncDecl {
+	byName := map[string]*ast.FuncDecl{}
+	for _, d := range c.file(rel).Decls {
+		fd, ok := d.(*ast.FuncDecl)
+		if !ok || fd.Body == nil || fd.Recv == nil || len(fd.Recv.List) != 1 {
+			continue
+		}
+		t := fd.Recv.List[0].Type
+		if st, ok := t.(*ast.StarExpr); ok {
+			t = st.X
+		}
+		if id, ok := t.(*ast.Ident); ok && id.Name == recv {
+			byName[fd.Name.Name] = fd
+		}
+	}
+	var out []*ast.FuncDecl
+	seen := map[string]bool{}
+	var visit func(n string)
+	visit = func(n string) {
+		fd, ok := byName[n]
+		if !ok || seen[n] || stop[n] {
+			return
+		}
+		seen[n] = true
+		out = append(out, fd)
+		rv := ""
+		if len(fd.Recv.List[0].Names) == 1 {
+			rv = fd.Recv.List[0].Names[0].Name
+		}
+		ast.Inspect(fd.Body, func(x ast.Node) bool {
+			if ce, ok := x.(*ast.CallExpr); ok {
+				if sel, ok := ce.Fun.(*ast.SelectorExpr); ok {
+					if id, ok := sel.X.(*ast.Ident); ok && id.Name == rv {
+						visit(sel.Sel.Name)
+					}
+				}
+			}
+			return true
+		})
+	}
+	visit(name)
+	if len(out) == 0 {
+		c.fail("%s: method (%s).%s not found", rel, recv, name)
+	}
+	return out
 }
 
 // closureIn finds `v := func(...) {...}` inside n
